@@ -31,10 +31,14 @@ func init() {
 			for k := 0; k < *nprof; k++ {
 				profile := (idx + *seed + k*5) % replay.NLinkProfiles
 				backend := backends[(idx/3+k)%len(backends)]
+				if cs.Profile != nil {
+					profile, backend = *cs.Profile, cs.Backend
+				}
 				f, n := replay.ReplayLinkOps(&cs, profile, backend, *scratch)
 				checks += n
 				if f != nil {
 					f.Case = idx
+					cs.Profile, cs.Backend = &profile, backend
 					f.Input = &cs
 					col.Add(*f)
 					break
